@@ -12,6 +12,7 @@ import (
 
 	"ibcverif/automata"
 	"ibcverif/interp"
+	"ibcverif/load"
 	"ibcverif/term"
 )
 
@@ -226,6 +227,10 @@ func runC16(c *Ctx) {
 	}
 	c.Samples = append(c.Samples, map[string]any{"families": names})
 
+	// ---- prefix iteration never spills into a neighbour: an iteration prefix
+	// must end in a literal (delimiter); one that ends in an identifier would
+	// also match every longer identifier (channel-1 / channel-10)
+	c.iterationPrefixes(which)
 	// ---- namespace confinement of light-client writes
 	c.lightClientNamespace(which)
 }
@@ -259,6 +264,88 @@ func (c *Ctx) lightClientTypes(which string) []string {
 	sort.Strings(out)
 	return out
 }
+
+func (c *Ctx) iterationPrefixes(which string) {
+	e := c.Engine(which)
+	P := e.P
+	// functions containing a prefix-iterator construction
+	holders := map[string]bool{}
+	var scan func(fn *ssa.Function)
+	scan = func(fn *ssa.Function) {
+		for _, b := range fn.Blocks {
+			for _, ins := range b.Instrs {
+				if ci, ok := ins.(ssa.CallInstruction); ok {
+					if sc := ci.Common().StaticCallee(); sc != nil && (sc.Name() == "KVStorePrefixIterator" || sc.Name() == "KVStoreReversePrefixIterator") {
+						holders[loadKey(topFn(fn))] = true
+					}
+				}
+			}
+		}
+		for _, an := range fn.AnonFuncs {
+			scan(an)
+		}
+	}
+	for k, fn := range P.Funcs {
+		if (strings.HasPrefix(k, "core/") || strings.HasPrefix(k, "light-clients/")) && !strings.Contains(k, "/migrations/") {
+			scan(fn)
+		}
+	}
+	allowed := map[string]string{
+		"core/04-channel/keeper.Keeper.IterateChannelsWithPrefix": "filters channels by a caller-given port *prefix* on purpose",
+		"core/04-channel/keeper.Keeper.GetAllChannelsWithPortPrefix": "filters channels by a caller-given port *prefix* on purpose",
+		"core/02-client/keeper.Keeper.IterateClientStates":         "filters clients by a caller-given client-type prefix on purpose",
+	}
+	// a holder that receives the prefix constructor as a function parameter is
+	// analysed through its callers, where the constructor is known
+	for k := range holders {
+		fn := P.Funcs[k]
+		hasFuncParam := false
+		for _, p := range fn.Params {
+			if _, ok := p.Type().Underlying().(*types.Signature); ok {
+				hasFuncParam = true
+			}
+		}
+		if hasFuncParam {
+			delete(holders, k)
+			sites, _ := c.CallersOf(which, k)
+			for _, s := range sites {
+				holders[s.Caller] = true
+			}
+		}
+	}
+	n := 0
+	for k := range holders {
+		rr := c.Run(which, k)
+		if rr == nil {
+			continue
+		}
+		for _, s := range c.Sites(c.Calls(rr, "storetypes.KVStore*PrefixIterator")) {
+			ev := s.Events[0]
+			if len(ev.Args) < 2 {
+				continue
+			}
+			n++
+			segs := e.T.Layout(ev.Args[1])
+			lay := e.T.LayoutString(segs)
+			where := P.Pos(ev.Instr.Pos())
+			construct := loadKey(topFn(ev.Fn)) + " prefix " + fmt.Sprintf("%q", lay)
+			if len(segs) > 0 && segs[len(segs)-1].Kind != 'L' {
+				if r, ok := allowed[loadKey(topFn(ev.Fn))]; ok {
+					c.ok("C16/iteration-prefix", construct, where, "listed: "+r)
+				} else {
+					c.bad("C16/iteration-prefix", construct, where, "the iteration prefix ends in an identifier/variable segment without a delimiter: iterating one object's entries also returns those of every object whose identifier extends it")
+				}
+			} else {
+				c.ok("C16/iteration-prefix", construct, where, "prefix ends in a literal delimiter")
+			}
+		}
+	}
+	if n < 10 {
+		c.bad("C16/iteration-prefix/instances", "prefix iterators", "", fmt.Sprintf("only %d prefix-iterator sites found", n))
+	}
+}
+
+func loadKey(fn *ssa.Function) string { return load.FuncKey(fn) }
 
 // objectStem names the protocol object a writer function stores: the function
 // name without its Set/Delete/Remove prefix, lower-cased.
